@@ -51,6 +51,30 @@ Theorem C04_chunked_round_trip_plain : forall bufsize cs l0 rest,
 Proof. exact chunked_round_trip_plain. Qed.
 Print Assumptions C04_chunked_round_trip_plain.
 
+(* Message boundaries.  If a stream parses into a response whose body is self-delimited (no
+   body, Content-Length or chunked) and ends cleanly, then with ANY bytes appended the very
+   same response, body and trailers are parsed and exactly the appended bytes are left over. *)
+Theorem C04_parse_deterministic_prefix : forall meth bufsize s r b t,
+  parse_response meth bufsize s = Accepted r b ->
+  b_end b = BOk -> r_framing r <> FrUntilClose ->
+  parse_response meth bufsize (s ++ t) = Accepted r (with_rest b (b_rest b ++ t)).
+Proof. exact parse_deterministic_prefix. Qed.
+Print Assumptions C04_parse_deterministic_prefix.
+
+(* Pipelining: when [s1] is exactly one complete self-delimited response, the first message
+   in [s1 ++ s2] ends exactly where [s2] begins, so the next parse sees s2 and only s2 - no
+   byte of one response is attributed to the other (for every s2, methods, buffer size). *)
+Theorem C04_pipelined_responses_separate : forall m1 m2 bufsize s1 s2 r1 b1,
+  parse_response m1 bufsize s1 = Accepted r1 b1 ->
+  b_end b1 = BOk -> r_framing r1 <> FrUntilClose -> b_rest b1 = [] ->
+  exists b1',
+    parse_response m1 bufsize (s1 ++ s2) = Accepted r1 b1' /\
+    b_data b1' = b_data b1 /\ b_trailer b1' = b_trailer b1 /\ b_end b1' = BOk /\
+    b_rest b1' = s2 /\
+    parse_response m2 bufsize (b_rest b1') = parse_response m2 bufsize s2.
+Proof. exact pipelined_responses_separate. Qed.
+Print Assumptions C04_pipelined_responses_separate.
+
 (* every stream yields a response or an error, for every method and buffer size *)
 Theorem C04_parse_total : forall meth bufsize s,
   match parse_response meth bufsize s with
@@ -83,3 +107,18 @@ Example C04_nonvacuous :
   dechunk_all 64 (render_chunks [(bs "5", bs "hello"); (bs "0006;ext=1 ", bs " world")]
                     ++ bs "0" ++ CRLF ++ bs "NEXT") = (bs "hello world", CEof (bs "NEXT")).
 Proof. vm_compute. repeat split; try discriminate; auto; lia. Qed.
+
+(* ... and a complete chunked response with folded header, trailer and odd chunk spelling
+   meets the hypotheses of the boundary theorems *)
+Example C04_boundary_nonvacuous :
+  let s := bs "HTTP/1.1 200 OK" ++ CRLF ++ bs "transfer-encoding: Chunked" ++ CRLF ++
+           bs "X-Fold: a" ++ CRLF ++ bs "  b" ++ CRLF ++ bs "Trailer: X-T" ++ CRLF ++ CRLF ++
+           bs "005;x=y " ++ CRLF ++ bs "hello" ++ CRLF ++ bs "0" ++ CRLF ++
+           bs "x-t: 1" ++ CRLF ++ CRLF in
+  match parse_response (bs "GET") 64 s with
+  | Accepted r b => b_end b = BOk /\ r_framing r = FrChunked /\ b_rest b = [] /\
+                    b_data b = bs "hello" /\ b_trailer b = [(bs "X-T", [bs "1"])] /\
+                    hget (bs "X-Fold") (r_header r) = Some [bs "a b"]
+  | Rejected _ => False
+  end.
+Proof. vm_compute. repeat split. Qed.
